@@ -46,7 +46,23 @@ def coord_label(case, d, i):
         return 10.0 * i
     if mode == "heat" and d == n - 1:
         return 1.0 * i
-    return 100 * d + 10 * coord_rank(case, d, i)
+    return coord_value(case, d, coord_rank(case, d, i))
+
+
+_UNEVEN = ([1, 2, 1000], [1, 10, 10000])
+
+
+def coord_value(case, d, r):
+    """data refinement: the value of the coordinate of rank r (1-based) of dim d - evenly spaced, or very
+    unevenly spaced (two values closer than 1/256 of the range), positive or negative, depending on the case"""
+    h = (int(case.get("num", 0)) // 3 + int(case.get("anum", 0)) + 7 * d) % 4
+    if h == 0:
+        return 100 * d + 10 * r
+    if h == 1:
+        return 10000 * d + _UNEVEN[0][r - 1]
+    if h == 2:
+        return -10000 * d - _UNEVEN[0][r - 1]          # descending with the rank
+    return 100000 * d + _UNEVEN[1][r - 1]
 
 
 def target_name(t):
@@ -295,6 +311,23 @@ def _grid_problems(case, placed):
     return out
 
 
+def _palette_notes(case, placed_lines):
+    """not demanded by the property (only distinctness is): with a palette and only `color` mapped the colour is
+    the palette at the rank position the spec assigns (np.linspace(0, 1, N)[i])"""
+    eff = case["eff"]
+    if not (case.get("pal") and eff[1] and not eff[0]):
+        return []
+    import matplotlib as mpl
+
+    cmap = mpl.colormaps["viridis"]
+    for d, ln in placed_lines:
+        n_, d_ = d["cpos"]
+        want = tuple(round(float(v), 6) for v in cmap(n_ / d_))
+        if any(abs(a - b) > 1e-4 for a, b in zip(want, ln["color"])):
+            return ["palette colour is not the colormap at the rank position of the coordinate"]
+    return []
+
+
 def _style_problems(case, placed_lines):
     """equal mapped coordinate => equal style value; different => different while defaults remain"""
     out = []
@@ -383,6 +416,7 @@ def compare_lines(case, panels):
             notes.append("panel index %s differs from the model's (%d, %d)" % (pn["pos"], d["ri"] - 1, d["ci"] - 1))
     problems += [("panel", m) for m in _grid_problems(case, placed)]
     problems += [("style", m) for m in _style_problems(case, placed_lines)]
+    notes += _palette_notes(case, placed_lines)
     return problems, notes
 
 
